@@ -70,17 +70,18 @@ class _Hang(BaseException):
 
 
 def guarded(fn, seconds=0.3):
-    """Run fn() under an interval-timer watchdog (the decode loops are pure Python, so the
-    signal handler runs).  Returns ("ok", value) | ("exc", class name) | ("hang", None)."""
+    """Run fn() under a CPU-time watchdog (ITIMER_VIRTUAL: robust against the process being
+    descheduled on a loaded machine; the decode loops are pure Python, so the signal handler
+    runs).  Returns ("ok", value) | ("exc", class name) | ("hang", None)."""
     def h(signum, frame):
         raise _Hang()
-    old = signal.signal(signal.SIGALRM, h)
-    signal.setitimer(signal.ITIMER_REAL, seconds)
+    old = signal.signal(signal.SIGVTALRM, h)
+    signal.setitimer(signal.ITIMER_VIRTUAL, seconds)
     try:
         try:
             r = fn()
         finally:
-            signal.setitimer(signal.ITIMER_REAL, 0)
+            signal.setitimer(signal.ITIMER_VIRTUAL, 0)
         return ("ok", r)
     except _Hang:
         return ("hang", None)
@@ -89,8 +90,8 @@ def guarded(fn, seconds=0.3):
     except Exception as e:
         return ("exc", exc_name(e))
     finally:
-        signal.setitimer(signal.ITIMER_REAL, 0)
-        signal.signal(signal.SIGALRM, old)
+        signal.setitimer(signal.ITIMER_VIRTUAL, 0)
+        signal.signal(signal.SIGVTALRM, old)
 
 
 # --------------------------------------------------------------------------
@@ -1062,7 +1063,7 @@ class StructRoundTrip(StructFamily):
 
     def generate(self, rng, tier):
         yield from handwritten_cases()
-        n = 500 if tier == "quick" else 12000
+        n = 500 if tier == "quick" else 8000
         for i in range(n):
             plain = i % 3 == 0
             s = gen_struct_schema(rng, depth=rng.choice([1, 2, 2, 3]), plain=plain)
@@ -1076,7 +1077,7 @@ class StructInvalidValue(StructFamily):
     name = "struct_invalid_value"
 
     def generate(self, rng, tier):
-        n = 400 if tier == "quick" else 8000
+        n = 400 if tier == "quick" else 5000
         made = 0
         while made < n:
             s = gen_struct_schema(rng, depth=rng.choice([1, 2, 3]), plain=True)
@@ -1843,7 +1844,7 @@ class JsonCodec(Family):
     timeout = 30.0
 
     def generate(self, rng, tier):
-        n = 400 if tier == "quick" else 8000
+        n = 400 if tier == "quick" else 5000
         yield {"schema": {"codec": "json"}, "values": [{}, {"a": [1, {"$f": "%016x" % f2bits(2.5)}, None]}, [1, 2], "s", 5, None,
                                                         {"$b": [1, 2]}]}
         for i in range(n):
@@ -1981,4 +1982,117 @@ class JsonCodec(Family):
         return {"construct": obs.get("construct"), "nprops": len(pr) if isinstance(pr, dict) else "n/a"}
 
 
-FAMILIES = [StructRoundTrip, StructInvalidValue, StructExhaust, StructInvalidSchema, TablePaths, NumpyView, JsonCodec]
+def has_len_array_of_zero_width(s):
+    t = s.get("type")
+    if isinstance(t, list) or t == "object":
+        return any(has_len_array_of_zero_width(p) for p in s.get("properties", {}).values())
+    if t == "array":
+        if "length" not in s and not s.get("noLengthEncodingExhaustBuffer", False) and min_width_zero(s["items"]):
+            return True
+        return has_len_array_of_zero_width(s["items"])
+    return False
+
+
+class StructDecodeBytes(StructFamily):
+    """decode_row on bytes that were not produced by encode (truncated, extended, corrupted,
+    random): the property text says nothing about them beyond termination, so the oracle only
+    demands that decode returns or raises; the correspondence demands that the model predicts
+    the decoded value / the error class (short reads, length prefixes, Pascal length bytes)."""
+    name = "struct_decode_bytes"
+
+    def generate(self, rng, tier):
+        n = 300 if tier == "quick" else 4000
+        made = 0
+        while made < n:
+            s = gen_struct_schema(rng, depth=rng.choice([1, 2, 3]), plain=True)
+            if has_len_array_of_zero_width(s) or not s["properties"]:
+                continue            # a corrupt prefix would legitimately ask for 2^32 empty elements
+            try:
+                good = ref_encode(s, gen_value(rng, s))
+            except Domain:
+                continue
+            bufs = []
+            for _ in range(4):
+                k = rng.random()
+                b = bytearray(good)
+                if k < 0.3 and b:
+                    b = b[:rng.randrange(len(b))]
+                elif k < 0.5:
+                    b += bytes(rng.randrange(256) for _ in range(rng.choice([1, 2, 5])))
+                elif k < 0.8 and b:
+                    for _ in range(rng.choice([1, 1, 2])):
+                        b[rng.randrange(len(b))] = rng.choice([0, 1, 2, 255, rng.randrange(256)])
+                else:
+                    b = bytearray(rng.randrange(256) for _ in range(rng.choice([0, 1, 3, 8, 20])))
+                bufs.append(list(b))
+            made += 1
+            yield {"schema": s, "bufs": bufs}
+
+    def observe(self, case):
+        ms, cons = construct(case["schema"])
+        obs = {"construct": cons}
+        if ms is None:
+            return obs
+        out = []
+        for b in case["bufs"]:
+            st, d = guarded(lambda: ms.decode_row(bytes(b)))
+            out.append(tag(d) if st == "ok" else ({"exc": d} if st == "exc" else "HANG"))
+        obs["decs"] = out
+        return obs
+
+    def oracle(self, case, obs):
+        out = oracle_construct_valid(case["schema"], obs["construct"])
+        if out:
+            return out
+        has, zero, nontail = exhaust_info(case["schema"])
+        for b, d in zip(case["bufs"], obs["decs"]):
+            if d == "HANG":
+                out.append(("exhaust-zero-width-hang" if zero else "decode-hang", "decode_row(%r) did not return" % (b,)))
+        return dedup(out)
+
+    def coq_check(self, case, obs):
+        if obs.get("construct") != "ok":
+            return None
+        try:
+            top = coq_top(case["schema"])
+        except Untranslatable:
+            return None
+        terms = []
+        for b, d in zip(case["bufs"], obs["decs"]):
+            try:
+                terms.append("check_decode c12_t %s %s" % (coq_bytes(b), coq_odec(case["schema"], d)))
+            except (Untranslatable, UnicodeError, TypeError, AttributeError, KeyError):
+                continue
+        if not terms:
+            return None
+        return "(let c12_t := %s in %s)" % (top, " && ".join(terms))
+
+    def nontrivial(self, case, obs):
+        return obs.get("construct") == "ok"
+
+    def describe(self, case, obs):
+        d = {}
+        for x in obs.get("decs", []):
+            d["outcome"] = "value" if not (isinstance(x, dict) and set(x) == {"exc"}) and x != "HANG" else (x if x == "HANG" else x["exc"])
+        return d
+
+    def shrink(self, case):
+        if len(case["bufs"]) > 1:
+            for b in case["bufs"]:
+                c = dict(case)
+                c["bufs"] = [b]
+                yield c
+
+
+FAMILIES = [StructDecodeBytes, StructRoundTrip, StructInvalidValue, StructExhaust, StructInvalidSchema, TablePaths, NumpyView, JsonCodec]
+
+NOT_COVERED = [
+    "stringEncoding values other than utf-8/ascii/latin-1 in the Coq correspondence (utf-16-le is oracle-only); other encodings not generated",
+    "numpy view: proved only as itemsize/kind agreement of FORMAT_TO_DTYPE with the struct sizes; offsets and values are differential (numpy's packed-dtype rule is numpy's)",
+    "schema string round trip: proved for the model (modify . canon . modify = modify); json.dumps/json.loads and the lru_cache are differential",
+    "completeness 'valid and in the format's domain => encode succeeds' is only in the oracle (ref_encode), not a Coq theorem",
+    "round32_impl/widen32_impl satisfy round32 (widen32 w) = Some w only on samples (Example) — the theorems take it as a hypothesis",
+    "MetadataSchema.__str__, metadata_vector, packset_metadata, drop_metadata, _CachedMetadata caching semantics",
+    "jsonschema keywords beyond type/properties/required/additionalProperties/items; meta-schema violations outside the 22 generated rules",
+    "integers beyond 2^53 stored in 'f'/'d' fields (int -> float conversion is modelled exactly only up to 2^53)",
+]
